@@ -12,6 +12,10 @@ for f in sorted(glob.glob(os.path.join(here, 'seeded', '*', 'meta.json'))):
     if len(s) > 230:
         s = s[:227].rsplit(' ', 1)[0] + ' …'
     first = 'caught' if not m.get('history') else 'missed → check strengthened'
+    if m.get('detected_by_other'):
+        first = 'not reported by this check (outside the property\'s quantifier); reported by ' + ', '.join(m['detected_by_other'])
+    elif m.get('history') and isinstance(m['history'], list) and isinstance(m['history'][0], dict) and str(m['history'][0].get('first_run','')).startswith('caught'):
+        first = 'caught (by a replayed witness only) → check strengthened'
     by = m.get('caught_by') or []
     by = ', '.join('`%s`' % b.replace('|', '/') for b in by[:2]) + (' (+%d)' % (m.get('caught_count', len(by)) - 2) if m.get('caught_count', len(by)) > 2 else '')
     rows.append('| %s | %s | %s | %s |' % (name, s, first, by))
